@@ -1011,7 +1011,7 @@ func c09Zombie(p *Program, r *Report) {
 	clean := nodesWhere(og, func(in ssa.Instruction) bool { c := callOf(in); return c != nil && c.StaticCallee() == lc.Cleanup })
 	okD := len(ozT) > 0 && len(clean) > 0
 	for e := range ozT {
-		if anyIn(og.Reach([]int{e.to}, clean, nil), og.Exits) {
+		if !clean[e.to] && anyIn(og.Reach([]int{e.to}, clean, nil), og.Exits) {
 			okD = false
 		}
 	}
